@@ -144,7 +144,7 @@ def run_tlc(sdir, module, cfg, workers=None, timeout=1800, extra=(), coverage=Fa
             expect_violation=False):
     """Run TLC. Returns TlcResult. Raises Broken on parse/semantic errors, timeouts, JVM failures."""
     md = os.path.join(sdir, "md%d" % next(_tlc_seq))
-    cmd = ["java", "-XX:+UseParallelGC"]
+    cmd = ["java", "-XX:+UseParallelGC", "-Djava.io.tmpdir=" + sdir]   # TLC litters its temp dir: keep that inside the scratch
     if heap:
         cmd.append("-Xmx%s" % heap)
     cmd += ["-Xss64m"]
